@@ -215,8 +215,13 @@ static int unhex(const char *h, unsigned char *out, size_t cap) {
 
 int main(void) {
     static char line[1 << 16];
-    static unsigned char fmt[4096], in[2048];
-    static wchar_t wfmt[4096];
+    /* the format starts at cell 1; cell 0 holds a '%': a pre-scan that looks at the character in FRONT of the format (a
+       look-behind without a lower bound) takes a leading "%n" for the escaped "%%n" and lets it through */
+    static unsigned char fmt0[4097], in[2048];
+    static wchar_t wfmt0[4097];
+    unsigned char *fmt = fmt0 + 1;
+    wchar_t *wfmt = wfmt0 + 1;
+    fmt0[0] = '%'; wfmt0[0] = L'%';
     FILE *ops = fdopen(dup(0), "r");     /* the stdin FILE itself stays untouched for the scanf_s children */
     S = mmap((void *)SBASE, RSZ, PROT_READ | PROT_WRITE, MAP_PRIVATE | MAP_ANONYMOUS | MAP_FIXED_NOREPLACE, -1, 0);
     sh = mmap(NULL, sizeof(Shared), PROT_READ | PROT_WRITE, MAP_SHARED | MAP_ANONYMOUS, -1, 0);
@@ -240,7 +245,7 @@ int main(void) {
         WDMAX = dm ? (size_t)strtoul(dm, NULL, 10) : WDMAX_DEFAULT;
         if (DMAX > DMAX_DEFAULT) DMAX = DMAX_DEFAULT;
         if (WDMAX > WDMAX_DEFAULT) WDMAX = WDMAX_DEFAULT;
-        int nf = unhex(hf, fmt, sizeof fmt), ni = unhex(hi ? hi : "", in, sizeof in);
+        int nf = unhex(hf, fmt, sizeof fmt0 - 1), ni = unhex(hi ? hi : "", in, sizeof in);
         if (nf < 0 || ni < 0) { printf("id=%s err=badhex\n", id); continue; }
         for (int i = 0; i <= nf; i++) wfmt[i] = (wchar_t)fmt[i];
         for (int i = 0; i <= ni; i++) g_win[i] = (wchar_t)in[i];
